@@ -37,6 +37,7 @@ type Config struct {
 	Solver           string
 	Seed             int64
 	KeepSamples      int
+	SleepSets        bool
 	Trace            bool
 }
 
@@ -316,6 +317,7 @@ type RunResult struct {
 	Switches      int
 	OpaqueFmt     int
 	Truncated     bool
+	Outcomes      map[string]int // distinct observation tuples of paths without symbolic inputs
 }
 
 type workList struct {
@@ -365,7 +367,7 @@ func (w *workList) done() {
 func (e *Engine) Explore(entry *ssa.Function) *RunResult {
 	t0 := time.Now()
 	res := &RunResult{Harness: entry.Name(), Status: map[string]int{}, Reach: map[string]int{},
-		Funcs: map[string]int{}, Stubs: map[string]int{}}
+		Funcs: map[string]int{}, Stubs: map[string]int{}, Outcomes: map[string]int{}}
 	e.mu.Lock()
 	e.unknowns = map[string]int{}
 	e.solverErrs = nil
@@ -425,6 +427,13 @@ func (e *Engine) Explore(entry *ssa.Function) *RunResult {
 				}
 				for l := range ps.reach {
 					res.Reach[l]++
+				}
+				if ps.completed && len(ps.vars) == 0 && len(res.Outcomes) < 10000 {
+					key := ""
+					for _, o := range ps.obs {
+						key += o.Label + "=" + formatObs(smt.Model{}, o.Val) + ","
+					}
+					res.Outcomes[key]++
 				}
 				for f, n := range ps.fnSeen {
 					res.Funcs[f] = n
